@@ -91,6 +91,16 @@ def make(fam, a, b, df=None):
     raise KeyError(fam)
 
 
+def _mixed(points, shape):
+    """Points whose coordinates are taken alternately from two different points (one coordinate inside the support, its neighbour
+    outside): the density of independent dimensions is a SUM over coordinates, -inf as soon as one of them is outside."""
+    n = int(np.prod(shape)) if shape else 1
+    if n < 2:
+        return []
+    mask = (np.arange(n) % 2 == 0).reshape(shape)
+    return [np.where(mask, p_, q_) for p_, q_ in zip(points[:-1], points[1:])] + [np.where(mask, points[-1], points[0])]
+
+
 def eval_points(fam, a, b, shape):
     """(P, *shape) evaluation points: interior ladder, support edges and float neighbours, outside, +-1e6."""
     A, Bb = np.broadcast_to(a, shape), np.broadcast_to(b, shape)
@@ -115,6 +125,8 @@ def eval_points(fam, a, b, shape):
     n = max(1, int(np.prod(shape)))
     mix = np.asarray([pts[(3 * i + 1) % len(pts)].reshape(-1)[i] for i in range(n)]).reshape(shape)
     pts.append(mix)
+    pts = [np.broadcast_to(np.asarray(p, float), shape) for p in pts]
+    pts = pts + _mixed(pts, shape)
     return np.stack([np.asarray(p, float).reshape(shape) for p in pts])
 
 
@@ -284,13 +296,22 @@ def run_case(case):
         fam = case["fam"]
         f32 = not case["x64"]
         for dim in (16, 64, 400):
-            for scv in (1e-3, 0.05, 20.0, 40.0):
+            for scv in (1e-6, 1e-5, 1e-3, 0.05, 20.0, 40.0) if dim == 16 else (1e-3, 0.05, 20.0, 40.0):
                 a = np.linspace(-1.0, 1.0, dim)
                 b = np.full(dim, scv)
                 df = np.full(dim, 4.0) if fam == "StudentT" else None
                 d, ref, acc = make(fam, a.astype(np.float32) if f32 else a, b.astype(np.float32) if f32 else b, df)
                 A64, B64 = (np.asarray(a, np.float32).astype(float), np.asarray(b, np.float32).astype(float)) if f32 else (a, b)
                 _, ref64, _ = make(fam, A64, B64, df)
+                # the positive parameter must come back through its accessor to (a few ulp of) the precision of the dtype, also where
+                # it is tiny: the constructors store it through an inverse softplus, which cancels for small arguments if written naively
+                accname = {"Exponential": "rate", "Uniform": None}.get(fam, "scale")
+                if accname is not None and hasattr(d, accname):
+                    got_b = np.asarray(getattr(d, accname), float)
+                    rel = float(np.max(np.abs(got_b - B64) / B64))
+                    tr += 1
+                    if not rel <= (2e-5 if f32 else 1e-11):
+                        add("accessor-small-parameter", f"{fam}({accname}={scv}) in {'float32' if f32 else 'float64'}: .{accname} comes back as {got_b.ravel()[0]!r} (relative error {rel:.2e})")
                 pts = []
                 for t in (0.3, -1.2):
                     if fam == "Uniform":
